@@ -118,6 +118,8 @@
 //! - SHA256-verified roundtrip testing
 
 pub mod agc_compressor;
+#[cfg(ragc_verif_sched)]
+pub mod verif_std;
 pub mod bloom_filter;
 pub mod contig_compression;
 pub mod contig_iterator;
